@@ -79,9 +79,30 @@ static struct in_addr *ares_save_opt_servers(const ares_channel_t *channel,
   return out;
 }
 
+static int ares_save_options_nolock(const ares_channel_t *channel,
+                                    struct ares_options  *options,
+                                    int                  *optmask);
+
 /* Save options from initialized channel */
 int ares_save_options(const ares_channel_t *channel,
                       struct ares_options *options, int *optmask)
+{
+  int rc;
+
+  if (channel == NULL) {
+    return ares_save_options_nolock(channel, options, optmask);
+  }
+
+  /* The channel may be used (and reconfigured) by other threads meanwhile */
+  ares_channel_lock(channel);
+  rc = ares_save_options_nolock(channel, options, optmask);
+  ares_channel_unlock(channel);
+  return rc;
+}
+
+static int ares_save_options_nolock(const ares_channel_t *channel,
+                                    struct ares_options  *options,
+                                    int                  *optmask)
 {
   size_t i;
 
